@@ -101,7 +101,7 @@ def kernel_part(out):
 
 
 def run():
-  return tvrun.run_tv('C20', {'builtins': (48, 240, None)}, FUNCTIONS, ASSUMPTIONS, 'DESIGN.md §3 C20',
+  return tvrun.run_tv('C20', {'builtins': (48, 2400, None)}, FUNCTIONS, ASSUMPTIONS, 'DESIGN.md §3 C20',
                       extra_fn=kernel_part, level='other')
 
 
